@@ -565,6 +565,8 @@ func pbGetQuerySerialize(in *MsgGetQuery) *pbx.GetQuery {
 			IfModifiedSince: timeToInt64(in.Desc.IfModifiedSince),
 			User:            in.Desc.User,
 			Topic:           in.Desc.Topic,
+			BeforeId:        int32(in.Desc.BeforeId),
+			SinceId:         int32(in.Desc.SinceId),
 			Limit:           int32(in.Desc.Limit),
 		}
 	}
@@ -573,14 +575,19 @@ func pbGetQuerySerialize(in *MsgGetQuery) *pbx.GetQuery {
 			IfModifiedSince: timeToInt64(in.Sub.IfModifiedSince),
 			User:            in.Sub.User,
 			Topic:           in.Sub.Topic,
+			BeforeId:        int32(in.Sub.BeforeId),
+			SinceId:         int32(in.Sub.SinceId),
 			Limit:           int32(in.Sub.Limit),
 		}
 	}
 	if in.Data != nil {
 		out.Data = &pbx.GetOpts{
-			BeforeId: int32(in.Data.BeforeId),
-			SinceId:  int32(in.Data.SinceId),
-			Limit:    int32(in.Data.Limit),
+			IfModifiedSince: timeToInt64(in.Data.IfModifiedSince),
+			User:            in.Data.User,
+			Topic:           in.Data.Topic,
+			BeforeId:        int32(in.Data.BeforeId),
+			SinceId:         int32(in.Data.SinceId),
+			Limit:           int32(in.Data.Limit),
 		}
 	}
 	return out
@@ -598,20 +605,31 @@ func pbGetQueryDeserialize(in *pbx.GetQuery) *MsgGetQuery {
 	if desc := in.GetDesc(); desc != nil {
 		msg.Desc = &MsgGetOpts{
 			IfModifiedSince: int64ToTime(desc.GetIfModifiedSince()),
+			User:            desc.GetUser(),
+			Topic:           desc.GetTopic(),
+			BeforeId:        int(desc.GetBeforeId()),
+			SinceId:         int(desc.GetSinceId()),
 			Limit:           int(desc.GetLimit()),
 		}
 	}
 	if sub := in.GetSub(); sub != nil {
 		msg.Sub = &MsgGetOpts{
 			IfModifiedSince: int64ToTime(sub.GetIfModifiedSince()),
+			User:            sub.GetUser(),
+			Topic:           sub.GetTopic(),
+			BeforeId:        int(sub.GetBeforeId()),
+			SinceId:         int(sub.GetSinceId()),
 			Limit:           int(sub.GetLimit()),
 		}
 	}
 	if data := in.GetData(); data != nil {
 		msg.Data = &MsgGetOpts{
-			BeforeId: int(data.GetBeforeId()),
-			SinceId:  int(data.GetSinceId()),
-			Limit:    int(data.GetLimit()),
+			IfModifiedSince: int64ToTime(data.GetIfModifiedSince()),
+			User:            data.GetUser(),
+			Topic:           data.GetTopic(),
+			BeforeId:        int(data.GetBeforeId()),
+			SinceId:         int(data.GetSinceId()),
+			Limit:           int(data.GetLimit()),
 		}
 	}
 
